@@ -658,14 +658,12 @@ Section ALoc.
     Proof.
       intros H Hs. unfold expression_block.
       apply loc_bind.
-      { apply loc_foldM_in. intros acc st Hin. pose proof (Forall_flat_in S s_spans stmts _ Hs Hin). ls. }
+      { apply loc_foldM_in. intros acc st Hin. apply block_split_incl in Hin.
+        pose proof (Forall_flat_in S s_spans stmts _ Hs Hin). ls. }
       intros r.
-      assert (L : forall v vsp, last_stmt stmts = Some (SStatementExpression v vsp) -> Forall S (e_spans v)).
-      { clear r. induction stmts as [|x l IH]; intros v vsp E; [discriminate|].
-        cbn [flat_map] in Hs. apply Forall_app in Hs as [Hx Hl].
-        destruct l; [injection E as ->; spans Hx; assumption|]. exact (IH Hl _ _ E). }
-      destruct (last_stmt stmts) as [[]|] eqn:E; try apply loc_ret.
-      pose proof (L _ _ eq_refl). ls.
+      destruct (block_split_cases stmts) as [(ss & v & vsp & -> & E)|E]; rewrite E; cbn [snd]; [|apply loc_ret].
+      rewrite flat_map_app in Hs. apply Forall_app in Hs as [_ Hx]. cbn [flat_map] in Hx. rewrite app_nil_r in Hx.
+      spans Hx. ls.
     Qed.
 
     Lemma loc_bin_op sp ctx a b con : S sp -> Forall S (e_spans a) -> Forall S (e_spans b) -> loc S (bin_op G R sp ctx a b con).
